@@ -25,6 +25,7 @@ UNI_LETTERS = [
 MULTI = ["http://", "https://", "HTTP://", "//", "://", "%2F", "%7E", "%41", "%", "%%", "%s", "{}", "{0}", "\\n", "\\", "pull", "issues", "@id",
          "ns1", "ns10", "None", "nan", "0", "00", "01", "-1", "a+b", "a b", "..", "../", "&amp;", "<x>", "[x]", "a,b", "a;b", "a|b",
          # names and namespaces that RDF / XML tooling treats specially
+         "{pattern}", "{uri_prefix}", "{prefix}", "http://[E", "//[", "HTTP://[::1]/", "\u2100",
          "%20", "%0A", "%C2%A0", "%2F%2Fb", "/%2Fb", "%3A", "%23",
          "sh", "xsd", "rdf", "rdfs", "owl", "xml", "xmlns", "XML", "xmlfoo", "static", "_",
          "http://www.w3.org/ns/shacl#", "http://www.w3.org/2001/XMLSchema#", "http://www.w3.org/1999/02/22-rdf-syntax-ns#",
@@ -80,6 +81,9 @@ def variants(s: str):
     add(s.replace("//", "/"))
     add(s.replace("+", " "))
     add("".join(c for c in s if c.isprintable()))
+    for a, b in (("[", "]"), ("<", ">"), ('"', '"'), ("(", ")"), ("{", "}")):     # wrappers some syntaxes put around CURIEs / IRIs
+        add(a + s + b)
+    add(s + "\r\n")
     return out
 
 
